@@ -66,13 +66,16 @@ Through(e, s, p, m) ==
        b == RenderBinds(e, s, v)
        right == sql = f.sql /\ b = f.binds
    IN [sql |-> sql, binds |-> b, ids |-> IF right THEN f.ids ELSE <<0 - 1>>, ids2 |-> IF right THEN f.ids2 ELSE <<0 - 1>>,
-       c2 |-> f.c2, rc |-> IF right THEN f.rc ELSE 0 - 2, sec |-> f.sec]
+       c2 |-> f.c2, rc |-> IF right THEN f.rc ELSE 0 - 2, sec |-> f.sec, dev |-> f.dev]
 
 \* ---------- operations: st -> [st, ret] ----------
 R(s, r) == [st |-> s, ret |-> r]
 DoExec(s0, s, p, m, mode) ==
    LET v == V[p] IN
-   IF mode = "nocache"
+   IF s.k = "ddl"          \* DDL has no cache key: compiled for every execution, the cache is not consulted
+   THEN LET e == [key |-> <<>>, sh |-> Name(s), p |-> p, m |-> m]
+        IN R(s0, [out |-> "ok", hit |-> "nokey", hit2 |-> "-", obs |-> Through(e, s, p, m)])
+   ELSE IF mode = "nocache"
    THEN LET e == [key |-> <<>>, sh |-> Name(s), p |-> p, m |-> m]      \* compiled for this execution, thrown away
         IN R(s0, [out |-> "ok", hit |-> "off", hit2 |-> IF F(s, v, m).sec # <<>> THEN "off" ELSE "-", obs |-> Through(e, s, p, m)])
    ELSE LET l1 == Lookup(s0.cache, KeyOf(s, v, m), Name(s), p, m)
@@ -82,7 +85,7 @@ DoExec(s0, s, p, m, mode) ==
             l2 == IF two THEN Lookup(l1.cache, SecKey(m), "selectin", p, m) ELSE l1
         IN R([s0 EXCEPT !.cache = l2.cache],
              [out |-> IF err THEN "InvalidRequestError" ELSE "ok", hit |-> l1.hit, hit2 |-> IF two THEN l2.hit ELSE "-",
-              obs |-> IF err THEN [sql |-> "-", binds |-> <<>>, ids |-> <<>>, ids2 |-> <<>>, c2 |-> FALSE, rc |-> 0 - 1, sec |-> <<>>] ELSE obs])
+              obs |-> IF err THEN [sql |-> "-", binds |-> <<>>, ids |-> <<>>, ids2 |-> <<>>, c2 |-> FALSE, rc |-> 0 - 1, sec |-> <<>>, dev |-> FALSE] ELSE obs])
 DoClear(s0) == R([s0 EXCEPT !.cache = <<>>], [out |-> "ok", hit |-> "-", hit2 |-> "-", obs |-> "-"])
 
 \* ---------- actions ----------
@@ -129,16 +132,18 @@ OnlyDocumentedError == (IsExec /\ last.ret.out # "ok") =>
 NoErrorWithoutMaps == (IsExec /\ last.m = "none") => last.ret.out = "ok"
 \* executions that bypass the cache leave it alone; a miss makes the key present; a hit makes it most recent
 CacheMoves == [][ /\ (last'.a = "Exec" /\ last'.mode = "nocache") => st'.cache = st.cache
-                  /\ (last'.a = "Exec" /\ last'.mode = "cached" /\ last'.ret.hit2 = "-") =>
+                  /\ (last'.a = "Exec" /\ last'.ret.hit = "nokey") => st'.cache = st.cache
+                  /\ (last'.a = "Exec" /\ last'.mode = "cached" /\ last'.ret.hit2 = "-" /\ last'.ret.hit # "nokey") =>
                         (st'.cache # <<>> /\ st'.cache[Len(st'.cache)].key = KeyOf(ByName[last'.sh], V[last'.p], last'.m))
                   /\ (last'.a = "Exec" /\ last'.ret.hit = "hit") => Find(st.cache, KeyOf(ByName[last'.sh], V[last'.p], last'.m)) # 0
                   /\ (last'.a = "Clear") => st'.cache = <<>> ]_vars
 
 \* ---------- shape-table run: one initial state per well-formed shape (function-transcription pattern) ----------
-CONSTANTS TableKinds      \* kinds enumerated by TableInit
+CONSTANTS TableKinds,     \* kinds enumerated by TableInit
+          TableSchemaOnly \* TRUE: only shapes that can run under a schema map (C16)
 TableCase(s, p, m) == [f |-> F(s, V[p], m), ex |-> Extract(s, V[p]), ord |-> Order(s, Struct(s, V[p])),
                        key |-> <<Struct(s, V[p]), LamKey(s, V[p])>>]
-TableInit == /\ \E s \in {x \in Shapes : x.k \in TableKinds} :
+TableInit == /\ \E s \in {x \in Shapes : x.k \in TableKinds /\ (TableSchemaOnly => SchemaCapable(x))} :
                   /\ st = [cache |-> <<>>, cur |-> s]
                   /\ PrintT(ToJson([name |-> Name(s), schema |-> SchemaCapable(s), vals |-> SubSeq(V, 1, NV),
                                     cases |-> [p \in 1..NV |-> [m \in {mm \in Maps : MapOK(s, mm)} |-> TableCase(s, p, m)]]]))
